@@ -31,8 +31,9 @@ def run(tier, seed, scale):
     chk.require(s.get("allotment_reports_checked", 0) > 20000 * min(1.0, scale), "too few allotment reports checked: %d" % s.get("allotment_reports_checked", 0))
     chk.require(s.get("serializer_reports_checked", 0) > 10000 * min(1.0, scale), "too few serializer reports checked")
     chk.require(s.get("budget_regimes", 0) > 500 * min(1.0, scale), "too few steady worker-budget regimes")
+    chk.require(s.get("budget_regimes_set_up_by_concurrent_global_control_constructors", 0) > 200 * min(1.0, scale), "too few budget regimes whose limit was set by concurrently constructed global_control objects")
     chk.require(s.get("reserved_slot_entries_by_external_threads", 0) > 1000 * min(1.0, scale), "reserved slots hardly used")
-    chk.extra["oracles"] = {k: s.get(k, 0) for k in ("bodies", "allotment_reports_checked", "distinct_limit_demand_vectors", "serializer_reports_checked", "budget_regimes",
+    chk.extra["oracles"] = {k: s.get(k, 0) for k in ("bodies", "allotment_reports_checked", "distinct_limit_demand_vectors", "serializer_reports_checked", "budget_regimes", "budget_regimes_set_up_by_concurrent_global_control_constructors",
                                                      "budget_regimes_skipped_not_drained", "observer_entries", "observer_exits", "reserved_slot_entries_by_external_threads",
                                                      "max_inflight_vs_bound_pct", "max_workers_minus_budget")}
     return chk.finish()
